@@ -65,7 +65,7 @@ enga_prop!(C04A, "C04", profiles = BOTH_PROFILES,
     assumptions = { let mut v = COMMON_ASSUME.to_vec(); v.push("out-of-arena reads/writes are visible in the quick tier only through their consequences (crash, corrupted neighbour pattern); the thorough tier adds an AddressSanitizer fuzz target"); v });
 
 enga_prop!(C08A, "C08", profiles = CHECKED,
-    profile = { let mut p = Profile::base(); p.w_bytes = 70; p.w_typed = 10; p.w_aligned = 10; p.w_drop = 45; p.w_fill = 10; p.w_rewind = 5; p.w_discard = 3; p.w_clear = 1; p.w_dealloc = 6; p.w_detach = 6; p.w_reopen = 2; p },
+    profile = { let mut p = Profile::base(); p.w_bytes = 70; p.w_typed = 10; p.w_aligned = 10; p.w_drop = 45; p.w_fill = 10; p.w_rewind = 5; p.w_clone = 5; p.w_droparena = 3; p.w_discard = 3; p.w_clear = 1; p.w_dealloc = 6; p.w_detach = 6; p.w_reopen = 2; p },
     mode = Mode { dirty: true, ..Mode::default() },
     nontrivial = |c| c.contains("zeroed-dirty"),
     rule = "Engine A histories in which every owner fills its whole range with non-zero bytes right after allocation; releases via drop on top, drop not on top, explicit dealloc; rewind, discard_freelist, clear, file reopen; at the return of every alloc_bytes/alloc_bytes_owned every byte of the returned range is zero. Non-trivial = the returned range intersects bytes an earlier owner had set non-zero",
@@ -89,7 +89,7 @@ enga_prop!(C13A, "C13", profiles = CHECKED,
     assumptions = { let mut v = COMMON_ASSUME.to_vec(); v.push("release of the backing store is observed through the verif Unmount event at the top of Memory::unmount (one event = one release)"); v });
 
 enga_prop!(C18, "C18", profiles = CHECKED,
-    profile = { let mut p = Profile::base(); p.flavors = &[Fl::Unsync]; p.w_truncate = 14; p.w_fill = 8; p.w_drop = 35; p.w_detach = 10; p.backends = &[(4, Backend::Vec), (3, Backend::Anon), (3, Backend::File)]; p },
+    profile = { let mut p = Profile::base(); p.flavors = &[Fl::Unsync]; p.w_clone = 0; p.w_droparena = 0; p.w_truncate = 14; p.w_fill = 8; p.w_drop = 35; p.w_detach = 10; p.backends = &[(4, Backend::Vec), (3, Backend::Anon), (3, Backend::File)]; p },
     mode = Mode::default(),
     nontrivial = |c| c.contains("truncate-with-freelist-and-live"),
     rule = "Engine A histories on unsync::Arena with truncate(n), n around allocated()/capacity() and up to 4x capacity, on Vec/anon/file backends; oracle: capacity()==max(n, allocated), allocated/discarded/free list/bytes below allocated unchanged, live ranges intact, afterwards an allocation that fits fresh space must succeed. Non-trivial = a truncate while the free list was non-empty and detached live data existed",
